@@ -412,6 +412,15 @@ def style_obj(sty):
 def schema_cases(ctx):
     rng = ctx.rng
     types = sorted(SCHEMA)
+    # directed: the constructors' cross-field checks (every digest type / hash algorithm, right and wrong length)
+    for rdtype in (43, 59, 32769):
+        for dt in (0, 1, 2, 3, 4, 5, 255, 256):
+            for n in sorted({1, 2, DS_LEN.get(dt, 7), DS_LEN.get(dt, 7) + 1}):
+                yield "rd-from-text", [41, rdtype, enc("60485 %s %d %s" % (rng.choice(["5", "8", "RSASHA1", "ED25519"]), dt, "ab" * n)), [None, 1, None]]
+    for scheme in (0, 1, 2, 255):
+        for h in (0, 1, 2, 3):
+            for n in (1, 47, 48, 64, 65):
+                yield "rd-from-text", [41, 63, enc("2018031900 %d %d %s" % (scheme, h, "0f" * n)), [None, 1, None]]
     for _ in range(ctx.n(160, 7000)):
         rdtype = rng.choice(types)
         kinds = SCHEMA[rdtype][0].split()
